@@ -386,6 +386,17 @@ fn primes_case(rng: &mut Rng, iters: u64) {
     for _ in 0..(iters / 200).min(20) {
         ns.push((rng.next() % 30000) as u32);
     }
+    // every small count: the sieve bound n * bitlen(n) is tight for a few of them (31 needs the bound 127)
+    let reference: Vec<u32> = (2u32..20000).filter(|&c| is_prime_td(c as u64)).collect();
+    for n in 0..=2200u32 {
+        let got = match catch_unwind(|| yamaquasi::fbase::primes(n)) {
+            Ok(v) => v,
+            Err(_) => fail("primes", format!("primes({n}): panic")),
+        };
+        if got[..] != reference[..n as usize] {
+            fail("primes", format!("primes({n}): {} primes returned ending with {:?}, expected the first {n} primes ending with {:?}", got.len(), got.last(), reference[..n as usize].last()));
+        }
+    }
     for n in ns {
         let got = match catch_unwind(|| yamaquasi::fbase::primes(n)) {
             Ok(v) => v,
@@ -1908,6 +1919,7 @@ fn pm1lists(rng: &mut Rng, iters: u64) {
         }
     };
     for _ in 0..(if iters < 1000 { 12 } else { 60 }) { pm1lists_blocks(rng); }
+    pm1lists_lastblock();
     let rounds = if iters < 1000 { 6 } else if iters < 50000 { 30 } else { 200 };
     for it in 0..rounds {
         let (b1, b2) = [(600u64, 40e3f64), (16384, 450e3), (1000, 980e3), (300, 100e3)][(it % 4) as usize];
@@ -1976,6 +1988,36 @@ fn pm1lists_blocks(rng: &mut Rng) {
             if prod != n || !fs.contains(&Uint::from(p1)) || !fs.contains(&Uint::from(p2)) {
                 fail("pm1lists", format!("pm1_impl(n = {p1} * {p2} * {r}, B1 200000, B2 450e3) = ({fs:?}, {rest}): {p1} - 1 and {p2} - 1 are both 200000-smooth (the first is found in the first sieve block, the second in a later one), both must be separated and the parts must multiply to n"));
             }
+        }
+    }
+}
+
+/// third part of pm1lists: the largest primes below B1 when stage 1 works with 1024-bit exponent blocks (B1 >= 65536): a
+/// factor p with p - 1 = m * l, l among the last three primes below B1, must be found by stage 1 alone (small B2)
+fn pm1lists_lastblock() {
+    use std::str::FromStr;
+    use yamaquasi::Verbosity;
+    fn is_prime(n: u64) -> bool { yamaquasi::isprime64(n) }
+    let p256 = Uint::from_str("92504863121296400653652753711376140294298584431452956354291724864471735145079").unwrap();
+    for b1 in [65536u64, 100_000, 131_072] {
+        let mut l = b1 - 1;
+        let mut done = 0;
+        while done < 3 {
+            while !is_prime(l) { l -= 1; }
+            if let Some(m) = (1u64..400).map(|j| 2 * j).find(|&m| is_prime(m * l + 1) && (m / 2 == 1 || [2u64, 3, 5, 7, 11, 13].iter().any(|q| (m / 2) % q == 0))) {
+                let p = m * l + 1;
+                let n = Uint::from(p) * p256;
+                match catch_unwind(AssertUnwindSafe(|| yamaquasi::pollard_pm1::pm1_impl(&n, b1, 70e3, Verbosity::Silent))) {
+                    Err(_) => fail("pm1lists", format!("pm1_impl({p} * p256, B1 {b1}, B2 70e3): panic")),
+                    Ok(None) => fail("pm1lists", format!("pm1_impl({p} * p256, B1 {b1}, B2 70e3) = None although p - 1 = {m} * {l} with {l} a prime below B1 (one of the last three)")),
+                    Ok(Some((fs, rest))) => {
+                        let mut prod = rest; for f in &fs { prod = prod * *f; }
+                        if prod != n || !fs.contains(&Uint::from(p)) { fail("pm1lists", format!("pm1_impl({p} * p256, B1 {b1}, B2 70e3) = ({fs:?}, {rest})")); }
+                    }
+                }
+                done += 1;
+            }
+            l -= 1;
         }
     }
 }
